@@ -15,8 +15,8 @@ import (
 
 // Sub is one submission of a producer.
 type Sub struct {
-	Kind  string `json:"kind"`  // with | withres | withgroup | get | call | nested
-	Group string `json:"group"` // model group: g1 | g2 | par
+	Kind  string `json:"kind"`           // with | withres | withgroup | get | call | nested
+	Group string `json:"group"`          // model group: g1 | g2 | par
 	Slow  bool   `json:"slow,omitempty"` // the callback stays inside for a few hundred microseconds
 }
 
@@ -25,9 +25,9 @@ type Program struct {
 	Workers   int              `json:"workers"`
 	InCh      int              `json:"inch"`
 	Producers map[string][]Sub `json:"producers"`
-	Api       []string         `json:"api"`      // API callers: reset | resetall | token | tokenreset | event
-	Shutdown  bool             `json:"shutdown"` // a Shutdown goroutine exists
-	Cycles    int              `json:"cycles"`   // number of Serve/Shutdown cycles (>=1)
+	Api       []string         `json:"api"`                // API callers: reset | resetall | token | tokenreset | event
+	Shutdown  bool             `json:"shutdown"`           // a Shutdown goroutine exists
+	Cycles    int              `json:"cycles"`             // number of Serve/Shutdown cycles (>=1)
 	Overtake  bool             `json:"overtake,omitempty"` // restart as soon as Shutdown has returned, without waiting for the previous Serve call to return
 }
 
